@@ -170,6 +170,29 @@ def r1_layouts(ctx):
         sp = ip.explore(ser)
         dp = ip.explore(des)
         ctx.evals(len(sp) + len(dp))
+        # every text field goes on the wire through a strict ASCII encode — also when the string primitive grew an option and this class passes it
+        lax = None
+        sfi_ = repo.func(f"{API}.ser_str")
+        extra_paths = []
+        for p_ in sp:
+            for e_ in p_.effects:
+                if e_.kind == "call" and e_.data.get("qual") == sfi_.qual and (len(e_.data["args"]) > 1 or e_.data["kwargs"]):
+                    bound = dict(zip(sfi_.params[1:], e_.data["args"][1:]))
+                    bound.update({k_: v_ for k_, v_ in e_.data["kwargs"].items() if k_ in sfi_.params})
+                    extra_paths += Interp(repo).explore(sfi_, args=bound)
+        for p_ in list(sp) + extra_paths:
+            for e_ in p_.effects:
+                if e_.kind == "call" and e_.data.get("method") == "encode":
+                    ea_, ek_ = list(e_.data["args"]), dict(e_.data["kwargs"])
+                    codec_ = ea_[0] if ea_ else ek_.get("encoding")
+                    errs_ = ea_[1] if len(ea_) > 1 else ek_.get("errors", "strict")
+                    if codec_ != "ascii" or errs_ != "strict":
+                        lax = (codec_, errs_)
+        if lax:
+            ctx.violation("C17.R1", ser.qual, loc(ser), "strict codec on every encoding path",
+                          f"{ci.name}.ser encodes a text field with codec {vkey(lax[0])} / errors={vkey(lax[1])}: a string outside the admitted (ASCII) domain is replaced or "
+                          f"escaped instead of being rejected, and the decoder returns a different text than the one encoded")
+            continue
         if len(sp) != 1 or len(dp) != 1 or sp[0].exit[0] != "return" or dp[0].exit[0] != "return":
             # an encoder that takes different paths depending on a field's length is fine if it *rejects* on one of them; one that puts a slice of a
             # field on the wire truncates silently — the decoder then returns another message than the one encoded
